@@ -253,9 +253,9 @@ class HandlerRegistry:
 
 @stubclass
 class Options:
-    def __init__(self, registry):
+    def __init__(self, registry, default_media_type=DEFAULT_MEDIA_TYPE):
         self.media_handlers = registry
-        self.default_media_type = DEFAULT_MEDIA_TYPE
+        self.default_media_type = default_media_type
 
 
 @stubclass
@@ -305,10 +305,16 @@ def mk_world(v, asgi, with_default=True):
     w.handler = MediaHandler(v, w.trace, w.exhaust)
     w.sync_path = bool(asgi and v.choose(2, 'deserialize_sync-offered'))
     w.registry = HandlerRegistry(v, w.trace, w.handler, sync_path=w.sync_path)
-    w.options = Options(w.registry)
+    # (req_options.default_media_type is configuration: App(media_type=...) / app.req_options.default_media_type = ...)
+    w.dmt = v.str('default_media_type')
+    w.options = Options(w.registry, w.dmt)
     w.ct = v.str('content_type') if v.choose(2, 'content-type?') else None  # any value, parameters and +json suffixes included
-    w.has_cl = v.choose(2, 'content-length?')
-    w.cl = 17 if w.has_cl else None
+    # the Content-Length the client sent (the inlined content_length accessor reads it): absent / a number / empty (wsgiref sends
+    # that for "no header") / not a number / negative -- the last two are refused by the accessor (C09) with a 400
+    cl_raw = [None, '17', '', 'x1', '-1'][v.choose(5, 'content-length')]
+    w.has_cl = cl_raw is not None
+    w.cl = 17 if cl_raw == '17' else None
+    w.cl_invalid = cl_raw in ('x1', '-1')
     UNSET = unset(v)
     w.state = v.choose(3, 'state')  # 0 FRESH, 1 VALUE, 2 ERROR
     w.m0 = UNSET
@@ -326,19 +332,19 @@ def mk_world(v, asgi, with_default=True):
     e0_field = (w.e0.real if v.concrete else w.e0) if w.e0 is not None else None
     if asgi:
         w.stream = AsgiBody(v, w.trace)
-        hdrs = w.raw_headers = {b'content-length': b'17'} if w.has_cl else {}
+        hdrs = w.raw_headers = {b'content-length': cl_raw.encode()} if w.has_cl else {}
         w.req = v.obj(AREQ, _media=w.m0, _media_error=e0_field, options=w.options, content_type=w.ct, _asgi_headers=hdrs,
                       is_websocket=False, _stream=w.stream)
     else:
         w.stream = WsgiBody(w.trace)
-        env = w.raw_headers = {'CONTENT_LENGTH': '17'} if w.has_cl else {}
+        env = w.raw_headers = {'CONTENT_LENGTH': cl_raw} if w.has_cl else {}
         w.req = v.obj(WREQ, _media=w.m0, _media_error=e0_field, options=w.options, content_type=w.ct, env=env, _bounded_stream=w.stream)
     d = v.choose(3, 'default_when_empty') if with_default else 0
     w.default_given = d != 0
     w.default = Doc("caller's default") if d == 1 else None
     # what must come out of any call as it went in
     w.req0, w.raw_headers0, w.options0, w.handler0 = snapshot(w.req), dict(w.raw_headers), snapshot(w.options), snapshot(w.handler)
-    names = ['state-VALUE', 'state-ERROR-reraise', 'fresh-success', 'fresh-error-raised', 'fresh-415']
+    names = ['state-VALUE', 'state-ERROR-reraise', 'fresh-success', 'fresh-error-raised', 'fresh-415', 'fresh-invalid-content-length']
     v.expect_covers(*(names + (['state-ERROR-default', 'fresh-not-found-default'] if with_default else [])))
     return w
 
@@ -390,7 +396,7 @@ def spec_get_media(v, w, out):
         return
 
     # ---- FRESH ---------------------------------------------------------------------------
-    v.check('exactly-one-handler-resolution', seq_eq(resolves, [('resolve', w.ct, DEFAULT_MEDIA_TYPE)]))
+    v.check('exactly-one-handler-resolution', seq_eq(resolves, [('resolve', w.ct, w.dmt)]))
     if w.registry.raised is not None:
         v.check('unsupported-media-type-propagates', out.exc is not None and same_exc(out.exc, w.registry.raised))
         v.check('unsupported-media-type-neither-parses-nor-touches-stream', len(parses) == 0 and len(stream_ops) == 0)
@@ -398,7 +404,20 @@ def spec_get_media(v, w, out):
         v.cover('fresh-415')
         invariant()
         return
+    if w.cl_invalid and not (w.asgi and w.sync_path):
+        # a Content-Length that is not a non-negative number: a 400 like any other undecodable input, no handler sees the
+        # body, and -- "later calls re-raise the same error" -- the error is cached like a handler's (state ERROR)
+        v.check('invalid-content-length-raises-a-400-class-error', out.exc is not None and out.exc.isa(v.real('falcon.errors:HTTPInvalidHeader')) and status_code(out.exc) == 400)
+        v.check('invalid-content-length-is-never-handed-to-a-handler', len(parses) == 0)
+        v.check('invalid-content-length-error-is-cached-for-later-calls', out.exc is not None and same_exc(e1, out.exc) and m1 is UNSET)
+        n_exh = len([e for e in stream_ops if e[0] == 'exhaust'])
+        v.check('stream-exhausted-exactly-once-iff-handler-asks', And(Iff(w.exhaust, n_exh == 1), n_exh <= 1))
+        v.check('get_media-itself-reads-only-what-the-fast-path-needs', len([e for e in stream_ops if e[0] == 'read']) == 0)
+        v.cover('fresh-invalid-content-length')
+        invariant()
+        return
     if w.asgi and w.sync_path:
+        # (the fast path hands the handler the bytes only: the Content-Length is not consulted at all)
         want_parse = [('deserialize_sync', w.stream.body)]
         want_reads = [('read', None)]
     elif w.asgi:
@@ -476,7 +495,8 @@ def asgi_media_property(v):
 def _environ(v, body_type):
     from falcon import testing
 
-    return testing.create_environ(path='/things', method='POST', headers={'Content-Type': body_type}, body=b'{}')
+    body = b'a=1&b=&c=x,y' if 'form' in body_type else b'{}'
+    return testing.create_environ(path='/things', method='POST', query_string='q=1,2&r=', headers={'Content-Type': body_type}, body=body)
 
 
 @harness(PROP, WREQ + '.__init__', inline=['falcon.*'])
@@ -487,10 +507,12 @@ def wsgi_request_starts_fresh(v):
     ct = ['application/json', 'application/x-www-form-urlencoded'][v.choose(2, 'content-type')]
     trace = []
     opts = Options(HandlerRegistry(v, trace, MediaHandler(v, trace, False)))
-    opts.strip_url_path_trailing_slash = False
-    opts._auto_parse_form_urlencoded = False
-    opts.keep_blank_qs_values = True
-    opts.auto_parse_qs_csv = False
+    # every request option the constructor reads, both ways; with the (deprecated) auto_parse_form_urlencoded the constructor
+    # itself consumes a form body into the query parameters -- the media cache must still start out FRESH
+    opts.strip_url_path_trailing_slash = bool(v.choose(2, 'strip_url_path_trailing_slash'))
+    opts._auto_parse_form_urlencoded = bool(v.choose(2, 'auto_parse_form_urlencoded'))
+    opts.keep_blank_qs_values = bool(v.choose(2, 'keep_blank_qs_values'))
+    opts.auto_parse_qs_csv = bool(v.choose(2, 'auto_parse_qs_csv'))
     req = v.obj(WREQ)
     out = v.call(req, _environ(v, ct), opts)
     v.check('no-exception', out.exc is None)
@@ -511,11 +533,11 @@ def asgi_request_starts_fresh(v):
     ct = ['application/json', 'application/x-www-form-urlencoded'][v.choose(2, 'content-type')]
     trace = []
     opts = Options(HandlerRegistry(v, trace, MediaHandler(v, trace, False)))
-    opts.strip_url_path_trailing_slash = False
-    opts._auto_parse_form_urlencoded = False
-    opts.keep_blank_qs_values = True
-    opts.auto_parse_qs_csv = False
-    scope = testing.create_scope(path='/things', method='POST', headers={'Content-Type': ct})
+    opts.strip_url_path_trailing_slash = bool(v.choose(2, 'strip_url_path_trailing_slash'))
+    opts._auto_parse_form_urlencoded = False  # (not read by the ASGI constructor: asgi.App refuses to start with it, lifespan check)
+    opts.keep_blank_qs_values = bool(v.choose(2, 'keep_blank_qs_values'))
+    opts.auto_parse_qs_csv = bool(v.choose(2, 'auto_parse_qs_csv'))
+    scope = testing.create_scope(path='/things', method='POST', query_string='q=1,2&r=', headers={'Content-Type': ct})
     receive = Doc('receive callable')
     req = v.obj(AREQ)
     out = v.call(req, scope, receive, None, opts)
@@ -687,9 +709,10 @@ class Dumps:
     def __pyvc_truth__(self):
         return True  # an ordinary object (no __bool__/__len__): always true, as for the real class
 
-    def __init__(self, v, returns_bytes):
+    def __init__(self, v, returns_bytes, json_text=False):
         self.v = v
         self.returns_bytes = returns_bytes
+        self.json_text = json_text
         self.calls = []
         self.results = []
 
@@ -701,6 +724,10 @@ class Dumps:
         else:
             r = v.str('dumped_text')
             v.assume(in_re(v, r, 'scalar'))  # ASSUMPTIONS: the serialised text has no lone surrogates
+        if self.json_text:
+            v.assume(Len(r) > 0)  # ASSUMPTIONS: a JSON text is never empty
+            if self.returns_bytes:
+                v.assume(in_re(v, r, 'utf8'))  # ASSUMPTIONS: an encoder that returns bytes returns UTF-8
         self.results.append(r)
         return r
 
@@ -764,8 +791,10 @@ def json_deserialize(v):
     loads = Loads(v)
     h = v.obj(JSONH, _loads=loads, _dumps=None)
     cl = v.int('content_length', 0) if v.choose(2, 'content-length?') else None
+    # the content type the request declared, as get_media passes it on: any value (parameters, +json suffixes ...) or none at all
+    ct = v.str('content_type') if v.choose(2, 'content-type?') else None
     h0 = snapshot(h)
-    out = v.call(h, src, 'application/json', cl)
+    out = v.call(h, src, ct, cl)
     v.check('reads-the-whole-body-with-one-unsized-read', src.reads == [None])
     json_deserialize_post(v, data, loads, out, h, h0)
 
@@ -777,8 +806,10 @@ def json_deserialize_async(v):
     loads = Loads(v)
     h = v.obj(JSONH, _loads=loads, _dumps=None)
     cl = v.int('content_length', 0) if v.choose(2, 'content-length?') else None
+    # the content type the request declared, as get_media passes it on: any value (parameters, +json suffixes ...) or none at all
+    ct = v.str('content_type') if v.choose(2, 'content-type?') else None
     h0 = snapshot(h)
-    out = v.call(h, src, 'application/json', cl)
+    out = v.call(h, src, ct, cl)
     v.check('reads-the-whole-body-with-one-unsized-read', src.reads == [None])
     json_deserialize_post(v, data, loads, out, h, h0)
 
@@ -790,7 +821,7 @@ def _serialize_variant(v, async_, returns_bytes):
     media = Doc('response media')
     h0 = snapshot(h)
     if async_ or v.choose(2, 'content-type-passed'):
-        out = v.call(h, media, 'application/json')
+        out = v.call(h, media, v.str('content_type'))  # (the response's content type: any value, e.g. with a charset parameter)
     else:
         out = v.call(h, media)  # Response.render_body shortcut: content_type is optional for the sync variants
     v.check('no-exception', out.exc is None)
@@ -840,30 +871,67 @@ def fn_self(m):
     return m.self_obj if hasattr(m, 'self_obj') else getattr(m, '__self__', None)
 
 
+SAMPLE_DOCUMENTS = [{'message': 'Hello World'}, {'k': ['\u00e9\u4e16\U0001f600', 1, 2.5, True, None, {'n': -(2 ** 70)}], '"\\\n': ''}, [], 'x', 0, None]
+
+
 @harness(PROP, JSONH + '.__init__', setup=_codecs)
 def json_init(v):
-    """The constructor picks the serializer by the type dumps returns and publishes the sync fast path."""
-    v.expect_covers('constructed')
-    returns_bytes = bool(v.choose(2, 'dumps-returns-bytes'))
-    dumps = Dumps(v, returns_bytes)
-    loads = Loads(v)
-    h = v.obj(JSONH)
-    out = v.call(h, dumps, loads)
+    """The constructor picks the serializer by the type dumps returns and publishes the sync fast path (not for a subclass,
+    whose overridden methods the fast path would bypass); omitted codecs default to the stdlib json functions."""
+    import json
+
+    v.expect_covers('constructed', 'constructed-with-default-codecs', 'constructed-subclass')
+    cls = v.real(JSONH)
+    subclassed = bool(v.choose(2, 'subclassed'))
+    if subclassed:
+        cls = type('AppJSONHandler', (cls,), {})
+    dumps_given, loads_given = v.choose(2, 'dumps-given'), v.choose(2, 'loads-given')
+    returns_bytes = bool(v.choose(2, 'dumps-returns-bytes')) if dumps_given else False
+    dumps = Dumps(v, returns_bytes) if dumps_given else None
+    loads = Loads(v) if loads_given else None
+    h = v.obj(cls)
+    if dumps_given and loads_given:
+        out = v.call(h, dumps, loads)
+    else:
+        out = v.call(h, **dict(([('dumps', dumps)] if dumps_given else []) + ([('loads', loads)] if loads_given else [])))
     v.check('no-exception', out.exc is None)
     if out.exc is not None:
         return
-    v.check('uses-the-given-dumps-and-loads', v.get(h, '_dumps') is dumps and v.get(h, '_loads') is loads)
-    v.check('probe-does-not-call-loads', len(loads.calls) == 0)
+    d, l = v.get(h, '_dumps'), v.get(h, '_loads')
+    if dumps_given:
+        v.check('uses-the-given-dumps-and-loads', d is dumps)
+    else:
+        # the default encoder produces JSON text which the stdlib decoder maps back to the document: checked on sample
+        # documents (non-ASCII, astral, escape-worthy characters, a large int); the general statement is the json dependency contract
+        texts = [d(m) for m in SAMPLE_DOCUMENTS] if callable(d) else [None]
+        v.check('default-dumps-produces-json-text-that-decodes-back-to-the-document', all(isinstance(t, str) for t in texts)
+                and all(json.loads(t) == m for t, m in zip(texts, SAMPLE_DOCUMENTS)))
+    if loads_given:
+        v.check('uses-the-given-dumps-and-loads', l is loads)
+        v.check('probe-does-not-call-loads', len(loads.calls) == 0)
+    else:
+        v.check('default-loads-decodes-json-text-back-to-the-document', callable(l) and all(l(json.dumps(m)) == m and l(json.dumps(m, ensure_ascii=False)) == m for m in SAMPLE_DOCUMENTS))
+    if not (dumps_given and loads_given):
+        v.cover('constructed-with-default-codecs')
     ser, aser = v.get(h, 'serialize'), v.get(h, 'serialize_async')
     want = '_serialize_b' if returns_bytes else '_serialize_s'
     awant = '_serialize_async_b' if returns_bytes else '_serialize_async_s'
     v.check('serializer-encodes-iff-dumps-returns-text', fn_name(ser) == want and fn_self(ser) is h)
     v.check('async-serializer-encodes-iff-dumps-returns-text', fn_name(aser) == awant and fn_self(aser) is h)
-    ss, ds = v.get(h, '_serialize_sync'), v.get(h, '_deserialize_sync')
-    v.check('sync-fast-path-is-the-same-serializer', fn_name(ss) == want and fn_self(ss) is h)
-    v.check('sync-fast-path-deserializer-is-_deserialize', fn_name(ds) == '_deserialize' and fn_self(ds) is h)
-    # frame: the constructor sets the two codecs and the four entry points, nothing else (the probe result is not kept)
-    v.check('sets-exactly-the-codecs-and-entry-points', set(snapshot(h)) == {'_dumps', '_loads', 'serialize', 'serialize_async', '_serialize_sync', '_deserialize_sync'})
+    f = snapshot(h)
+    if subclassed:
+        # a subclass may override serialize / deserialize: the fast path (which calls _serialize_* / _deserialize directly)
+        # must not be published for it, or request and response media would silently bypass the overrides
+        v.check('subclass-does-not-publish-the-sync-fast-path', '_serialize_sync' not in f and '_deserialize_sync' not in f
+                and getattr(cls, '_serialize_sync', None) is None and getattr(cls, '_deserialize_sync', None) is None)
+        v.check('sets-exactly-the-codecs-and-entry-points', set(f) == {'_dumps', '_loads', 'serialize', 'serialize_async'})
+        v.cover('constructed-subclass')
+    else:
+        ss, ds = v.get(h, '_serialize_sync'), v.get(h, '_deserialize_sync')
+        v.check('sync-fast-path-is-the-same-serializer', fn_name(ss) == want and fn_self(ss) is h)
+        v.check('sync-fast-path-deserializer-is-_deserialize', fn_name(ds) == '_deserialize' and fn_self(ds) is h)
+        # frame: the constructor sets the two codecs and the four entry points, nothing else (the probe result is not kept)
+        v.check('sets-exactly-the-codecs-and-entry-points', set(f) == {'_dumps', '_loads', 'serialize', 'serialize_async', '_serialize_sync', '_deserialize_sync'})
     v.cover('constructed')
 
 
@@ -873,23 +941,30 @@ def json_round_trip_plumbing(v):
 
     Hence deserialize(serialize(m)) == loads(dumps(m)); that this equals m is the assumed json contract.
     """
-    v.expect_covers('round-trip', 'round-trip-rejected-by-loads')
-    dumps = Dumps(v, False)
+    v.expect_covers('round-trip', 'round-trip-rejected-by-loads', 'round-trip-of-a-bytes-encoder')
+    # dumps returns text (stdlib json) or bytes (orjson-like: UTF-8 JSON): the constructor selects _serialize_s / _serialize_b
+    returns_bytes = bool(v.choose(2, 'dumps-returns-bytes'))
+    dumps = Dumps(v, returns_bytes, json_text=True)
     loads = Loads(v)
     h = v.obj(JSONH, _dumps=dumps, _loads=loads)
     media = Doc('response media')
+    ct = v.str('content_type')  # "sent back as a request with the same content type": any one, on both sides
     h0 = snapshot(h)
-    ser = v.call(h, media, 'application/json', target=JSONH + '._serialize_s')
+    ser = v.call(h, media, ct, target=JSONH + ('._serialize_b' if returns_bytes else '._serialize_s'))
     if ser.exc is not None or len(dumps.results) != 1:
         v.check('serialize-does-not-raise', False)
         return
-    text = dumps.results[0]
-    v.assume(Len(text) > 0)  # ASSUMPTIONS: a JSON text is never empty
+    text = dumps.results[0]  # (non-empty; UTF-8 when the encoder returns bytes: assumed where the stub produces it)
     body = ser.value
     is_async = bool(v.choose(2, 'asgi'))
     src = ByteSource(body, is_async=is_async)
-    out = v.call(h, src, 'application/json', None, target=JSONH + ('.deserialize_async' if is_async else '.deserialize'))
-    v.check('loads-receives-exactly-the-text-dumps-produced', And(len(loads.calls) == 1, loads.calls[0] == text) if len(loads.calls) == 1 else False)
+    cl = v.int('content_length', 0) if v.choose(2, 'content-length?') else None  # (whatever the client declares)
+    out = v.call(h, src, ct, cl, target=JSONH + ('.deserialize_async' if is_async else '.deserialize'))
+    if returns_bytes:
+        v.check('loads-receives-exactly-the-utf8-decoding-of-the-bytes-dumps-produced', And(len(loads.calls) == 1, loads.calls[0] == utf8_decoded(text)) if len(loads.calls) == 1 else False)
+        v.cover('round-trip-of-a-bytes-encoder')
+    else:
+        v.check('loads-receives-exactly-the-text-dumps-produced', And(len(loads.calls) == 1, loads.calls[0] == text) if len(loads.calls) == 1 else False)
     v.check('round-trip-leaves-the-handler-unchanged', same_fields(snapshot(h), h0))
     v.check('round-trip-uses-each-codec-once', len(dumps.calls) == 1 and dumps.calls[0] is media and src.reads == [None])
     if loads.returned:
@@ -979,6 +1054,14 @@ def _urlencoded_world(v):
     return body, keep_blank, csv, h, ParseQS(v)
 
 
+def _declared(v):
+    """What the request declares about its body, as get_media hands it to a handler: any content type (parameters such as a
+    charset included) or none, any Content-Length (whatever the real length is) or none."""
+    ct = v.str('content_type') if v.choose(2, 'content-type?') else None
+    cl = v.int('content_length', 0) if v.choose(2, 'content-length?') else None
+    return ct, cl
+
+
 @harness(PROP, URLH + '._deserialize', setup=_codecs)
 def urlencoded__deserialize(v):
     body, keep_blank, csv, h, pqs = _urlencoded_world(v)
@@ -992,9 +1075,10 @@ def urlencoded__deserialize(v):
 def urlencoded_deserialize(v):
     body, keep_blank, csv, h, pqs = _urlencoded_world(v)
     src = ByteSource(body)
+    ct, cl = _declared(v)
     h0 = snapshot(h)
     with patched(v, 'falcon.media.urlencoded', 'parse_query_string', pqs):
-        out = v.call(h, src, 'application/x-www-form-urlencoded', None)
+        out = v.call(h, src, ct, cl)
     v.check('reads-the-whole-body-with-one-unsized-read', src.reads == [None])
     urlencoded_deserialize_post(v, body, pqs, keep_blank, csv, out, h, h0)
 
@@ -1003,9 +1087,10 @@ def urlencoded_deserialize(v):
 def urlencoded_deserialize_async(v):
     body, keep_blank, csv, h, pqs = _urlencoded_world(v)
     src = ByteSource(body, is_async=True)
+    ct, cl = _declared(v)
     h0 = snapshot(h)
     with patched(v, 'falcon.media.urlencoded', 'parse_query_string', pqs):
-        out = v.call(h, src, 'application/x-www-form-urlencoded', None)
+        out = v.call(h, src, ct, cl)
     v.check('reads-the-whole-body-with-one-unsized-read', src.reads == [None])
     urlencoded_deserialize_post(v, body, pqs, keep_blank, csv, out, h, h0)
 
@@ -1049,12 +1134,13 @@ class UrlEncode:
 @harness(PROP, URLH + '.serialize', setup=_codecs)
 def urlencoded_serialize(v):
     v.expect_covers('serialized')
-    h = v.obj(URLH, _keep_blank=True, _csv=False)
+    # (the two parser options of the handler, both ways: they configure parsing and must not leak into the encoding)
+    h = v.obj(URLH, _keep_blank=bool(v.choose(2, 'keep_blank')), _csv=bool(v.choose(2, 'csv')))
     media = Doc('form mapping')
     ue = UrlEncode(v)
     h0 = snapshot(h)
     with patched(v, 'falcon.media.urlencoded', 'urlencode', ue):
-        out = v.call(h, media, 'application/x-www-form-urlencoded') if v.choose(2, 'content-type-passed') else v.call(h, media)
+        out = v.call(h, media, v.str('content_type')) if v.choose(2, 'content-type-passed') else v.call(h, media)
     v.check('no-exception', out.exc is None)
     if out.exc is not None:
         return
@@ -1234,7 +1320,8 @@ def mk_resp(v, asgi, state=None, media_kinds=2, simple=False):
     w.handler = Serializer(v, w.trace)
     w.sync_path = bool(asgi and not simple and v.choose(2, 'serialize_sync-offered'))
     w.registry = HandlerRegistry(v, w.trace, w.handler, sync_path=w.sync_path, may_fail=False)
-    w.options = Options(w.registry)
+    w.dmt = v.str('default_media_type')  # resp_options.default_media_type: configuration
+    w.options = Options(w.registry, w.dmt)
     k = 0 if simple else v.choose(3, 'resp-content-type')
     w.ct = [None, '', None][k] if k != 2 else v.str('resp_content_type')
     if k == 2:
@@ -1283,13 +1370,13 @@ def spec_render_body(v, w, out):
         v.cover('cached')
         return
     # first rendering of the assigned media
-    ct_eff = DEFAULT_MEDIA_TYPE if (w.ct is None or (isinstance(w.ct, str) and w.ct == '')) else w.ct
+    ct_eff = w.dmt if (w.ct is None or (isinstance(w.ct, str) and w.ct == '')) else w.ct
     if w.asgi and w.sync_path:
-        want = [('resolve', ct_eff, DEFAULT_MEDIA_TYPE), ('serialize_sync', w.media)]
+        want = [('resolve', ct_eff, w.dmt), ('serialize_sync', w.media)]
     elif w.asgi:
-        want = [('resolve', ct_eff, DEFAULT_MEDIA_TYPE), ('serialize_async', w.media, ct_eff)]
+        want = [('resolve', ct_eff, w.dmt), ('serialize_async', w.media, ct_eff)]
     else:
-        want = [('resolve', ct_eff, DEFAULT_MEDIA_TYPE), ('serialize', w.media, ct_eff)]
+        want = [('resolve', ct_eff, w.dmt), ('serialize', w.media, ct_eff)]
     v.check('one-resolution-then-one-serialization-of-the-assigned-media', seq_eq(trace, want))
     if len(w.handler.results) != 1:
         return
